@@ -121,8 +121,9 @@ class Builder:
             self.floats.append(g.call_function(torch.flip, (a, [0])))
         elif k == "mul2":
             self.floats.append(g.call_function(operator.mul, (a, 2)))
-        elif k == "near1":   # scale changes by 2^-7 or 2^-11: inside some rtols, outside others
-            self.floats.append(g.call_function(operator.mul, (a, r.choice([1.0078125, 1.00048828125]))))
+        elif k == "near1":   # scale changes by 2^-7 or 2^-9: inside some rtols (2^-2; 2^-8, 2^-2), outside others; with 32 elements the
+            # mean keeps a denominator <= 2^14 (exactly representable in the projection), which 2^-11 did not
+            self.floats.append(g.call_function(operator.mul, (a, r.choice([1.0078125, 1.001953125]))))
         elif k == "relu":
             self.floats.append(g.call_function(torch.relu, (a,)))
         elif k == "abs":
